@@ -223,6 +223,14 @@ func (t *Transport) AwaitIdle() bool {
 	}
 }
 
+// IsIdle reports (without blocking) whether a Read call is parked with
+// nothing left to deliver.
+func (t *Transport) IsIdle() bool {
+	t.rmu.Lock()
+	defer t.rmu.Unlock()
+	return t.parked && len(t.chunks) == 0 && !t.closed
+}
+
 // Pending reports whether undelivered chunks remain.
 func (t *Transport) Pending() bool {
 	t.rmu.Lock()
